@@ -134,4 +134,17 @@ __CPROVER_requires((cfg->pff == NULL || cfg->pff == cfgv_filter_own) && (fb_pff 
 __CPROVER_requires(cfgv_eff == (cfg->pff ? cfg->pff : fb_pff) && cfgv_pos == 0 && !cfgv_fasked && cfgv_sum == 0)
 __CPROVER_assigns(cfgv_pos, cfgv_fasked, cfgv_sum)
 __CPROVER_ensures(cfgv_pos == cfgv_term_k && !cfgv_fasked && __CPROVER_return_value == cfgv_sum);
+/* contract::cfg_print / cfg_print_indent - the public entries: print the context with no inherited filter at depth 0 / at
+ * the given depth.  Checked against contract::cfg_print_pff_indent (--replace-call-with-contract: the callee's
+ * precondition - no inherited filter, the caller's stream and depth - is an obligation at the call site). */
+#define CFGV_PRINT_PRE(cfg, fp, depth) (__CPROVER_is_fresh(cfg, sizeof(*cfg)) && CFGV_OPTARRAY(cfg->opts) && cfg == cfgv_pc && fp == cfgv_fp && (depth) == cfgv_depth \
+	&& (cfg->pff == NULL || cfg->pff == cfgv_filter_own) && cfgv_eff == cfg->pff && cfgv_pos == 0 && !cfgv_fasked && cfgv_sum == 0)
+int cfg_print_indent(cfg_t *cfg, FILE *fp, int indent)
+__CPROVER_requires(CFGV_PRINT_PRE(cfg, fp, indent))
+__CPROVER_assigns(cfgv_pos, cfgv_fasked, cfgv_sum)
+__CPROVER_ensures(cfgv_pos == cfgv_term_k && !cfgv_fasked && __CPROVER_return_value == cfgv_sum);
+int cfg_print(cfg_t *cfg, FILE *fp)
+__CPROVER_requires(CFGV_PRINT_PRE(cfg, fp, 0))
+__CPROVER_assigns(cfgv_pos, cfgv_fasked, cfgv_sum)
+__CPROVER_ensures(cfgv_pos == cfgv_term_k && !cfgv_fasked && __CPROVER_return_value == cfgv_sum);
 #endif
